@@ -88,6 +88,7 @@ class WebSocketResponse(StreamResponse, Generic[_DecodeText]):
     _loop: asyncio.AbstractEventLoop | None = None
     _waiting: bool = False
     _close_wait: asyncio.Future[None] | None = None
+    _close_done: asyncio.Event | None = None
     _exception: BaseException | None = None
     _heartbeat_when: float = 0.0
     _heartbeat_cb: asyncio.TimerHandle | None = None
@@ -523,9 +524,19 @@ class WebSocketResponse(StreamResponse, Generic[_DecodeText]):
             raise RuntimeError("Call .prepare() first")
 
         if self._closed:
+            # close() of another task may still be waiting for the peer's
+            # CLOSE: returning now (handler return) would drop the transport.
+            if self._close_done is not None:
+                await self._close_done.wait()
             return False
         self._set_closed()
+        self._close_done = asyncio.Event()
+        try:
+            return await self._close_handshake(code, message, drain)
+        finally:
+            self._close_done.set()
 
+    async def _close_handshake(self, code: int, message: bytes, drain: bool) -> bool:
         # A single deadline for the whole close handshake.
         deadline = asyncio.get_running_loop().time() + self._timeout
         try:
